@@ -280,9 +280,18 @@ def al_prefix(A: "Seq[V]", B: "Seq[V]", f: "fn", D: "Seq[E]", k: "int"):
         hint(snoc(D, m - 1))
 
 
-@assumed("nbdime.diffing.generic.diff_sequence_multilevel", properties=["C01"])
+@assumed("nbdime.diffing.snakes.compute_snakes_multilevel", properties=["C01"])
+def compute_snakes_multilevel(A: "Seq[V]", B: "Seq[V]", compares: "Seq[fn]", rect: "None", level: "None") -> "Seq[T3]":
+    # ASSUMED (checked only at run time by the bounded stand-ins): the multilevel refinement returns runs (i, j, n), n >= 1,
+    # inside the two lists, strictly monotone and non-overlapping.  Which items it aligns is irrelevant to the round trip.
+    ensures(all(result[q][2] >= 1 and 0 <= result[q][0] and result[q][0] + result[q][2] <= len(A) and
+                0 <= result[q][1] and result[q][1] + result[q][2] <= len(B) for q in range(len(result))))
+    ensures(all(result[q][0] + result[q][2] <= result[q + 1][0] and result[q][1] + result[q][2] <= result[q + 1][1]
+                for q in range(len(result) - 1)))
+
+
+@contract("nbdime.diffing.generic.diff_sequence_multilevel", properties=["C01", "C11"])
 def diff_sequence_multilevel(a: "Seq[V]", b: "Seq[V]", path: "path", config: "cfg") -> "Seq[E]":
-    # proved separately below from compute_diff_from_snakes' contract; assumed only at this call site
     requires(differs_ok())
     ensures(wf_seq(result, len(a)))
     ensures(apply_seq(a, result) == b)
@@ -345,4 +354,52 @@ def diff_lists(a: "Seq[V]", b: "Seq[V]", path: "path", config: "cfg", shallow_di
         finally_check(di._diff == at_head(di._diff) + di._diff[len(at_head(di._diff)):])
         finally_hint(fold1(a, b, compares[0], at_head(di._diff), di._diff[len(at_head(di._diff)):]))
         finally_check(cmp(compares[0], a[i + k], b[j + k]))
+        finally_check(a[i + k] == b[j + k] or len(di._diff) > len(at_head(di._diff)))
+
+
+# ------------------------------------------------------------------ snakes -> diff (notebook cells / outputs path)
+
+@contract("nbdime.diffing.snakes.compute_diff_from_snakes", properties=["C01", "C11"])
+def compute_diff_from_snakes(a: "Seq[V]", b: "Seq[V]", snakes: "Seq[T3]", path: "path", config: "cfg") -> "Seq[E]":
+    # snakes: (i, j, n) runs of aligned items, monotone and inside the two lists; every aligned pair is handed to
+    # the differ registered for the item path (table contract differs_ok)
+    requires(differs_ok())
+    requires(all(snakes[q][2] >= 1 and 0 <= snakes[q][0] and snakes[q][0] + snakes[q][2] <= len(a) and
+                 0 <= snakes[q][1] and snakes[q][1] + snakes[q][2] <= len(b) for q in range(len(snakes))))
+    requires(all(snakes[q][0] + snakes[q][2] <= snakes[q + 1][0] and snakes[q][1] + snakes[q][2] <= snakes[q + 1][1]
+                 for q in range(len(snakes) - 1)))
+    ensures(wf_seq(result, len(a)))
+    ensures(apply_seq(a, result) == b)
+    with loop(1, index="s"):
+        invariant(i1 == len(a) and j1 == len(b) and subpath == path_star(path) and diffit == differs_at(subpath))
+        invariant(0 <= i0 and i0 <= len(a) and 0 <= j0 and j0 <= len(b))
+        invariant(implies(s == 0, i0 == 0 and j0 == 0))
+        invariant(implies(s > 0 and s <= len(snakes), i0 == snakes[s - 1][0] + snakes[s - 1][2] and j0 == snakes[s - 1][1] + snakes[s - 1][2]))
+        invariant(implies(s == len(snakes) + 1, i0 == len(a) and j0 == len(b)))
+        invariant(0 <= rtake(a, di._diff) and rtake(a, di._diff) <= i0)
+        invariant(len(rout(a, di._diff)) + i0 - rtake(a, di._diff) == j0)
+        invariant(pref_eq(rout(a, di._diff), b))
+        invariant(gap_eq(a, b, rtake(a, di._diff), i0, len(rout(a, di._diff))))
+        invariant(sorted_b(di._diff))
+        invariant(all(wf_entry(di._diff[q], len(a)) for q in range(len(di._diff))))
+        invariant(all(ordered(di._diff[p], di._diff[q]) for p in range(len(di._diff)) for q in range(p + 1, len(di._diff))))
+        invariant(all(di._diff[q].key + span(di._diff[q]) <= i0 and (di._diff[q].key < i0 or s == len(snakes) + 1) for q in range(len(di._diff))))
+    with loop(2):
+        entry_check(di._diff == at_head(di._diff) + di._diff[len(at_head(di._diff)):])
+        entry_hint(fold1(a, b, diffit, at_head(di._diff), di._diff[len(at_head(di._diff)):]))
+        entry_hint(fold2(a, b, diffit, at_head(di._diff), di._diff[len(at_head(di._diff)):]))
+        entry_check(0 <= rtake(a, di._diff) and rtake(a, di._diff) <= i)
+        entry_check(len(rout(a, di._diff)) + i - rtake(a, di._diff) == j)
+        invariant(0 <= k and i + k <= len(a) and j + k <= len(b))
+        invariant(0 <= rtake(a, di._diff) and rtake(a, di._diff) <= i + k)
+        invariant(len(rout(a, di._diff)) + i + k - rtake(a, di._diff) == j + k)
+        invariant(pref_eq(rout(a, di._diff), b))
+        invariant(gap_eq(a, b, rtake(a, di._diff), i + k, len(rout(a, di._diff))))
+        invariant(sorted_b(di._diff))
+        invariant(all(wf_entry(di._diff[q], len(a)) for q in range(len(di._diff))))
+        invariant(all(ordered(di._diff[p], di._diff[q]) for p in range(len(di._diff)) for q in range(p + 1, len(di._diff))))
+        invariant(all(di._diff[q].key + span(di._diff[q]) <= i + k for q in range(len(di._diff))))
+        invariant(all(di._diff[q].key <= i or di._diff[q].key < i + k for q in range(len(di._diff))))
+        finally_check(di._diff == at_head(di._diff) + di._diff[len(at_head(di._diff)):])
+        finally_hint(fold1(a, b, diffit, at_head(di._diff), di._diff[len(at_head(di._diff)):]))
         finally_check(a[i + k] == b[j + k] or len(di._diff) > len(at_head(di._diff)))
